@@ -1,6 +1,6 @@
 (* C04 - what a connection delivers depends on the bytes sent, not on read boundaries. *)
 From RZ Require Import Base.Prelude Base.Stepper Model.Codec Proofs.CodecProofs Model.Engine
-  Proofs.EngineProofs Model.Actor Proofs.ActorProofs.
+  Proofs.EngineProofs Model.Actor Proofs.ActorProofs Model.RxSession Proofs.RxSessionProofs.
 Local Open Scope N_scope.
 
 (* Engine: for every configuration, every byte string (valid transcript or not) and every two
@@ -45,6 +45,44 @@ Theorem C04_actor_legacy_refuted :
   a_ingress (a_reads false legacy_witness_cfg (a_new 0) [(legacy_witness_stream, 0)]) = [] /\
   deliveries (snd (e_net legacy_witness_cfg (e_new 0) legacy_witness_stream 0)) = [[data_frame false [1; 2; 3]]].
 Proof. exact legacy_handler_drops_refuted. Qed.
+
+(* ---------- the receiving session's operational loop (Model/RxSession.v): read arm gated on an empty
+   ingress_buffer, drain arm, EOF / fatal error leaving the loop ---------- *)
+(* for every gate, schedule and segmentation: handed to the pipe ++ still buffered ++ dropped with the loop = the
+   engine's deliveries for the chunks read so far, in order *)
+Theorem C04_session_conservation : forall gate cfg t g0 input es,
+  let s := x_run gate cfg (x_new t g0 input) es in
+  x_pipe s ++ x_buf s ++ x_dropped s = deliveries (snd (nets cfg g0 (x_seen s))) /\ x_seen s ++ x_in s = input.
+Proof. exact rx_conservation. Qed.
+(* with the code's gate nothing is lost to the peer's EOF: for an error-free stream, every schedule of read / drain
+   polls and every segmentation, once the loop has been left everything decoded from the WHOLE stream is in the pipe *)
+Theorem C04_session_eof_loses_nothing : forall cfg t g0 input, has_err (snd (nets cfg g0 input)) = false ->
+  forall es, let s := x_run gate_empty cfg (x_new t g0 input) es in
+  x_dropped s = [] /\ (x_over s = true -> x_pipe s = deliveries (snd (nets cfg g0 input))).
+Proof. exact rx_eof_loses_nothing. Qed.
+Theorem C04_session_eof_segmentation_independent : forall cfg t input1 input2,
+  concat (map fst input1) = concat (map fst input2) ->
+  has_err (snd (nets cfg (e_new t) input1)) = false ->
+  forall es1 es2,
+  let s1 := x_run gate_empty cfg (x_new t (e_new t) input1) es1 in
+  let s2 := x_run gate_empty cfg (x_new t (e_new t) input2) es2 in
+  x_over s1 = true -> x_over s2 = true -> x_pipe s1 = x_pipe s2.
+Proof. exact rx_eof_segmentation_independent. Qed.
+(* the gate matters: a refill threshold instead of "empty" loses the buffered tail to EOF *)
+Theorem C04_session_refill_gate_loses_refuted :
+  let s := x_run gate_lwm2 legacy_witness_cfg (x_new 0 (e_new 0) [(legacy_witness_stream, 0)]) [XRead; XRead] in
+  has_err (snd (nets legacy_witness_cfg (e_new 0) [(legacy_witness_stream, 0)])) = false /\
+  x_over s = true /\ x_pipe s = [] /\ x_dropped s = [[data_frame false [1; 2; 3]]] /\
+  x_over (x_run gate_empty legacy_witness_cfg (x_new 0 (e_new 0) [(legacy_witness_stream, 0)]) [XRead; XRead]) = false.
+Proof. exact rx_refill_gate_loses_refuted. Qed.
+(* NOT independent of the cuts when the stream ends in a protocol error: messages decoded in the same read as the
+   error are dropped with the loop (recorded finding; outside the property's quantifier, which ranges over
+   handshake + data transcripts) *)
+Theorem C04_session_error_tail_depends_on_cuts_refuted :
+  let one := x_run gate_empty legacy_witness_cfg (x_new 0 (e_new 0) [(two_msgs ++ error_tail, 0)]) [XRead; XDrain 5] in
+  let two := x_run gate_empty legacy_witness_cfg (x_new 0 (e_new 0) [(two_msgs, 0); (error_tail, 0)]) [XRead; XDrain 5; XRead] in
+  x_over one = true /\ x_over two = true /\ x_pipe one = [] /\ length (x_pipe two) = 2%nat.
+Proof. exact rx_error_tail_depends_on_cuts_refuted. Qed.
 
 Example C04_example :
   let m := [data_frame true [1; 2]; data_frame false (fill 300 5)] in
